@@ -228,7 +228,11 @@ func copyNonInjectorDecls(g *gen, files []*ast.File, info *types.Info) {
 	for _, f := range files {
 		name := filepath.Base(g.pkg.Fset.File(f.Pos()).Name())
 		first := true
+		prevEnd := f.Name.End()
 		for _, decl := range f.Decls {
+			from := prevEnd
+			prevEnd = decl.End()
+			var embeds []string
 			switch decl := decl.(type) {
 			case *ast.FuncDecl:
 				// OK to ignore error, as any error cases should already have
@@ -240,6 +244,9 @@ func copyNonInjectorDecls(g *gen, files []*ast.File, info *types.Info) {
 				if decl.Tok == token.IMPORT {
 					continue
 				}
+				if decl.Tok == token.VAR {
+					embeds = detachedEmbeds(f, from, decl)
+				}
 			default:
 				continue
 			}
@@ -248,10 +255,40 @@ func copyNonInjectorDecls(g *gen, files []*ast.File, info *types.Info) {
 				first = false
 			}
 			// TODO(light): Add line number at top of each declaration.
+			for _, line := range embeds {
+				g.p("%s\n", line)
+			}
+			if len(embeds) > 0 {
+				// Keep them apart from the doc comment, as they were.
+				g.p("\n")
+			}
 			g.writeAST(info, decl)
 			g.p("\n\n")
 		}
 	}
+}
+
+// detachedEmbeds returns the //go:embed lines between pos from and the
+// variable declaration decl that are not part of its doc comment (a blank
+// line separates them from it). The compiler applies them to the declaration
+// all the same, but only the doc comment is copied with it.
+func detachedEmbeds(f *ast.File, from token.Pos, decl *ast.GenDecl) []string {
+	to := decl.Pos()
+	if decl.Doc != nil {
+		to = decl.Doc.Pos()
+	}
+	var lines []string
+	for _, group := range f.Comments {
+		if group.Pos() < from || group.End() > to {
+			continue
+		}
+		for _, c := range group.List {
+			if strings.HasPrefix(c.Text, "//go:embed ") || strings.HasPrefix(c.Text, "//go:embed\t") {
+				lines = append(lines, c.Text)
+			}
+		}
+	}
+	return lines
 }
 
 // importInfo holds info about an import.
